@@ -392,12 +392,74 @@ def r18_5(ctx):
         ctx.bad("R18.5", au.module, au.qual, "reload on mtime", "authenticate no longer reloads a changed password file", au.node.lineno)
 
 
+def r18_6(ctx):
+    """The per-address half of the throttle counts failures of *the client's* address.  Three hops, each checked: the
+    throttle calls are given `<client>.rem_addr` (directly or through a local copied from it); `rem_addr` of the two
+    front-end client classes is the constructor's `rem_addr` parameter; and the accept callbacks fill that parameter from
+    the first element of the transport's `peername`.  (With the socket's own address - `sockname` - every client shares one
+    bucket: six failures from anywhere lock out everybody, and no address is ever singled out.)"""
+    p = ctx.p
+    # hop 1: throttle calls
+    n = 0
+    for fi in p.functions.values():
+        for c in calls_in(fi.node):
+            if call_name(c) not in ("check_allow", "login_failed") or not isinstance(c.func, ast.Name) or len(c.args) < 2:
+                continue
+            n += 1
+            ctx.analysed(fi)
+            a = c.args[1]
+            if isinstance(a, ast.Name):
+                defs = [s for s in body_walk(fi.node) if isinstance(s, ast.Assign) and len(s.targets) == 1 and isinstance(s.targets[0], ast.Name) and s.targets[0].id == a.id]
+                if len(defs) == 1:
+                    a = defs[0].value
+            if isinstance(a, ast.Attribute) and a.attr == "rem_addr":
+                ctx.ok("R18.6", where(fi), f"{call_name(c)}(..., {norm(a)})")
+            else:
+                ctx.bad("R18.6", fi.module, fi.qual, norm(c, 90), f"the throttle is given `{norm(a, 50)}` as the client address, not the connection's rem_addr", c.lineno)
+    ctx.floor("R18.6", n, 4, "throttle calls with an address")
+    # hops 2 and 3
+    for ckey, akey in (("server.IMAPClient.__init__", "server.IMAPServer.new_client"), ("pop3_server.POP3Client.__init__", "pop3_server.POP3Server.new_client")):
+        init, acc = p.func(ckey), p.func(akey)
+        ctx.analysed(init)
+        ctx.analysed(acc)
+        st = [s for s in body_walk(init.node) if isinstance(s, ast.Assign) and norm(s.targets[0]) == "self.rem_addr"]
+        if len(st) == 1 and isinstance(st[0].value, ast.Name) and st[0].value.id == "rem_addr" and "rem_addr" in [a.arg for a in init.node.args.args]:
+            ctx.ok("R18.6", where(init), "self.rem_addr = rem_addr (constructor parameter)", nontrivial=False)
+        else:
+            ctx.bad("R18.6", init.module, init.qual, "self.rem_addr = rem_addr", "the client object's rem_addr is no longer the constructor's rem_addr parameter", init.node.lineno)
+            continue
+        pos = [a.arg for a in init.node.args.args].index("rem_addr") - 1  # without self
+        cls_name = ckey.split(".")[1]
+        ctor = [c for c in calls_in(acc.node) if isinstance(c.func, ast.Name) and c.func.id == cls_name]
+        ctx.require(ctor, f"{akey}: construction of {cls_name} not found")
+        c = ctor[0]
+        arg = c.args[pos] if len(c.args) > pos else kwarg(c, "rem_addr")
+        src = None
+        if isinstance(arg, ast.Name):
+            for s in body_walk(acc.node):
+                if isinstance(s, ast.Assign) and len(s.targets) == 1:
+                    t, v = s.targets[0], strip_await(s.value)
+                    if isinstance(t, ast.Tuple) and t.elts and isinstance(t.elts[0], ast.Name) and t.elts[0].id == arg.id:
+                        src = v  # first element of the unpacked pair
+                    elif isinstance(t, ast.Name) and t.id == arg.id and isinstance(v, ast.Subscript) and isinstance(v.slice, ast.Constant) and v.slice.value == 0:
+                        src = v.value
+        if isinstance(src, ast.Name):
+            d = [s for s in body_walk(acc.node) if isinstance(s, ast.Assign) and len(s.targets) == 1 and isinstance(s.targets[0], ast.Name) and s.targets[0].id == src.id]
+            src = strip_await(d[0].value) if len(d) == 1 else src
+        good = isinstance(src, ast.Call) and call_name(src) == "get_extra_info" and src.args and isinstance(src.args[0], ast.Constant) and src.args[0].value == "peername" and norm(call_recv(src)) == "writer"
+        if good:
+            ctx.ok("R18.6", where(acc), f"{cls_name}(rem_addr=<host of writer.get_extra_info('peername')>)")
+        else:
+            ctx.bad("R18.6", acc.module, acc.qual, norm(src, 70) if src is not None else norm(c, 70), "the address a new connection is filed under is not the host part of the transport's `peername`: the per-address throttle counts all clients together (or none)", c.lineno)
+
+
 def run(ctx):
     ctx.do(r18_1)
     ctx.do(r18_2)
     ctx.do(r18_3)
     ctx.do(r18_4)
     ctx.do(r18_5)
+    ctx.do(r18_6)
     ctx.trust("frozen pre-auth handler set: " + ", ".join(sorted(PREAUTH_ALLOWED)))
     for k, v in STATE_WRITERS.items():
         ctx.trust(f"frozen state writer: {k} - {v}")
